@@ -210,15 +210,18 @@ def resolve (s : Db Text) : List (Nat × Nat) → Option (List (Nat × Text))
 def query (s : Db Text) (k : QKind) (f : Nat) : Db Text × Outcome (Reads Text) :=
   if k.projectKeyed then
     -- analyze_salsa / diagnostics_salsa / type_of_salsa
+    -- `state.sources.contains_key(&file_id).then_some((state.db.clone(), project_inputs(state)))`:
+    -- `then_some` evaluates its argument eagerly, so the `expect` in `project_inputs` is reached on
+    -- every call, also for a file salsa does not know
     let s1 := withSynced s
-    if (lookup s1.salsaSrc f).isSome then
-      match s1.project with
-      | none => (s1, .panic)
-      | some files =>
+    match s1.project with
+    | none => (s1, .panic)
+    | some files =>
+      if (lookup s1.salsaSrc f).isSome then
         match resolve s1 files with
         | some v => (s1, .ok (.proj k v f))
         | none => (s1, .panic)
-    else (s1, .ok (.dflt k))
+      else (s1, .ok (.dflt k))
   else
     -- file_symbols / expr_id_at_offset
     match sourceHandleForFile s f with
